@@ -31,7 +31,18 @@ void ir2c_trap_hook(void);
 #define IR2C_SOVF_minus(a, b) ({ __typeof__(a) ir2c_r_; __builtin_sub_overflow((a), (__typeof__(a))(b), &ir2c_r_); })
 #define IR2C_SOVF_mult(a, b) ({ __typeof__(a) ir2c_r_; __builtin_mul_overflow((a), (__typeof__(a))(b), &ir2c_r_); })
 #endif
-#ifndef IR2C_EVENT_LOAD
+/* atomic-access event hooks (called inside the atomic section, BEFORE the access, with the memory order found in the IR).
+ * The generated C is its own translation unit, so the hooks are functions the harness defines; -DIR2C_EVENTS turns them on. */
+#ifdef IR2C_EVENTS
+void ir2c_event_load(const void *p, const char *order);
+void ir2c_event_store(const void *p, const char *order);
+void ir2c_event_rmw(const void *p, const char *order);
+void ir2c_event_fence(const char *order);
+#define IR2C_EVENT_LOAD(p, o) ir2c_event_load((p), (o))
+#define IR2C_EVENT_STORE(p, o) ir2c_event_store((p), (o))
+#define IR2C_EVENT_RMW(p, o) ir2c_event_rmw((p), (o))
+#define IR2C_FENCE(o) ir2c_event_fence(o)
+#else
 #define IR2C_EVENT_LOAD(p, o) ((void)0)
 #define IR2C_EVENT_STORE(p, o) ((void)0)
 #define IR2C_EVENT_RMW(p, o) ((void)0)
